@@ -435,13 +435,36 @@ def _w_io(res, p):
         l1 = load_measurement_outcome_distribution(path)
         save_measurement_outcome_distributions([d, d], path)
         l2 = load_measurement_outcome_distributions(path)
+        # a list of DIFFERENT distributions on the same outcomes: entered in another order, with the probabilities moved round,
+        # with one outcome more; every list position must come back as it was saved
+        items = list(d.distribution_dict.items())
+        keys, vals = [k for k, _ in items], [v for _, v in items]
+        rot = vals[1:] + vals[:1]
+        family = [d, MOD(dict(zip(reversed(keys), rot)), normalize=False), MOD(dict(zip(keys, rot)), normalize=False), MOD(dict(reversed(items)), normalize=False), d]
+        if len(keys) >= 2:
+            family.insert(2, MOD(dict(zip(keys[1:] + keys[:1], vals)), normalize=False))
+        snaps = [dict(x.distribution_dict) for x in family]
+        save_measurement_outcome_distributions(family, path)
+        l3 = load_measurement_outcome_distributions(path)
     finally:
         os.unlink(path)
     ok = l1.distribution_dict == d.distribution_dict and len(l2) == 2 and all(x.distribution_dict == d.distribution_dict for x in l2)
-    if ok:
-        res.ob(0, 1, "ground-structure")
+    bad3 = None
+    if len(l3) != len(family):
+        bad3 = f"{len(l3)} distributions loaded for {len(family)} saved"
     else:
+        for i, (x, w) in enumerate(zip(l3, snaps)):
+            if x.distribution_dict != w:
+                bad3 = f"list position {i}: loaded {x.distribution_dict} != saved {w}"
+                break
+        if bad3 is None and [dict(x.distribution_dict) for x in family] != snaps:
+            bad3 = "saving changed the distributions"
+    if ok and not bad3:
+        res.ob(0, 1, "ground-structure")
+    elif not ok:
         res.candidate("save-load", f"{p['label']}: loaded {l1.distribution_dict} != saved {d.distribution_dict}", dict(p, clause="save-load", values={}), sub="save-load")
+    else:
+        res.candidate("save-load", f"{p['label']}: a list of different distributions on the same outcomes: {bad3}", dict(p, clause="save-load", values={}), sub="save-load")
 
 
 def typed_bad(keys, weights, string_keys, qubits):
